@@ -681,12 +681,13 @@ def run_in(ctx, impl, model):
     hh = [h for h in hists if h['stage'] == 'E-history' and len(h.get('cases', [])) >= 3]
     if hh: st.samples['history'] = [{'case': c.line[:500], 'result': norm(c.impl)[:300]} for c in hh[0]['cases']]
 
-    # ---- F. records near the 512 KiB limit (thorough tier)
-    if not q:
+    # ---- F. records near the 512 KiB limit: writer and reader must agree on which path/deps records are too long
+    # (quick tier: the lengths around the limit for path records only; thorough: more lengths, also as a dependency)
+    if True:
         hists = []
-        for n in (524276, 524277, 524279, 524280, 524281, 524283, 524284):
+        for n in ((524280, 524283, 524287, 524288) if q else (524276, 524277, 524279, 524280, 524281, 524283, 524284, 524285, 524286, 524287, 524288, 524292)):
             big = bytes((i * 7 + n) % 251 + 1 for i in range(n))
-            for ops in ([(big, 1, [b'a'])], [(b'a', 1, [big, b'b'])]):
+            for ops in ([(big, 1, [b'a'])],) if q else ([(big, 1, [b'a'])], [(b'a', 1, [big, b'b'])]):
                 hists.append(dict(file=None, steps=[('session', (), ops), ('cut', 0.5), ('session', (), [(b'z', 1, [b'a'])]), ('load', (), ())],
                                   oracle='record-limit', stage='F-limit', taint=set()))
         history_rounds(st, hists)
